@@ -25,6 +25,16 @@ def jobs(tier):
                 continue
             js.append(dict(name="%s/n%d" % (e.name, n), entry=e.name, backend="snarkjs",
                            cfg=dict(n=n, r=2, guard=None, bound=bound), tier=tier, weight=n))
+    from . import cat_c16
+    for e in cat_c16.build(4, tier):
+        if "unpack" in e.tags and "assert" in e.tags:
+            js.append(dict(name="%s/n4" % e.name, entry=e.name, backend="snarkjs", catalogue="checks.cat_c16",
+                           cfg=dict(n=4, r=2, guard=None, bound=(1 << 20)), tier=tier, weight=1))
+    for e in CAT.build(4, "quick"):
+        if e.name in ("assert_lt_ss", "assert_eq_ss", "assert_positive", "assert_range_cc", "assert_nonzero", "assert_ge_sc3"):
+            for pre in (["false_region"], ["aborted_region"]):
+                js.append(dict(name="%s/n4/after-%s" % (e.name, pre[0]), entry=e.name, backend="snarkjs",
+                               cfg=dict(n=4, r=2, guard=None, bound=(1 << 64), prelude=pre), tier=tier, weight=2))
     return js
 
 
